@@ -50,6 +50,10 @@ static unsigned pmap_used;
 static struct simheap_cfg hcfg;
 static prng_t hprng;
 static uint64_t live_bytes_lib;
+static unsigned live_count[8];
+#define MAXQUICK 64
+static int quick[MAXQUICK];     /* indexes of (up to MAXQUICK) live library blocks: canaries checked after every TRY */
+static int nquick;
 static uint64_t quarantine_bytes;
 static unsigned quarantine_head;        /* next block index to consider for release */
 
@@ -157,6 +161,8 @@ void simheap_end_run(void)
         }
     }
     nblks = 0;
+    memset(live_count, 0, sizeof live_count);
+    nquick = 0;
     live_bytes_lib = 0;
     quarantine_bytes = 0;
     quarantine_head = 0;
@@ -195,6 +201,8 @@ static struct blk *blk_new(size_t size, int tag)
     b->tag = tag;
     b->live = 1;
     b->released = 0;
+    live_count[tag & 7]++;
+    if (tag == TAG_LIB && nquick < MAXQUICK) quick[nquick++] = (int)nblks;
     nblks++;
     pmap_put(b->user, nblks - 1);
     return b;
@@ -219,6 +227,11 @@ static void quarantine_trim(void)
 static void blk_release(struct blk *b)
 {
     b->live = 0;
+    live_count[b->tag & 7]--;
+    if (b->tag == TAG_LIB) {
+        int qi;
+        for (qi = 0; qi < nquick; qi++) if (quick[qi] == (int)(b - blks)) { quick[qi] = quick[--nquick]; break; }
+    }
 #if SIM_ASAN
     b->released = 1;
     /* keep mapping until the address is reused: lets double free be seen by us too */
@@ -256,10 +269,25 @@ void simheap_fail_global(const unsigned char *bitmap, unsigned nbits, unsigned s
     fail_bitmap = bitmap; fail_nbits = nbits; fail_suffix = suffix_from;
 }
 
+static void heap_violation(const char *what, const char *fmt, ...);
+
 void simheap_op_end(void)
 {
     /* counters for the *next* op start at zero; keep last-op values readable */
     fail_in_op = 0;
+#if !SIM_ASAN
+    {
+        /* the library call just returned (or aborted): before any harness code trusts memory again,
+         * make sure it did not write outside the blocks it owns */
+        int qi; unsigned k;
+        for (qi = 0; qi < nquick; qi++) {
+            struct blk *b = &blks[quick[qi]];
+            for (k = 0; k < CAN; k++)
+                if (b->user[-1 - (int)k] != CAN_FRONT || b->user[b->size + k] != CAN_BACK)
+                    heap_violation("canary", "write outside library block #%d (size %zu) during the last library call", quick[qi], b->size);
+        }
+    }
+#endif
 }
 
 /* decide whether this library allocation fails; 1 = injected, 2 = enomem */
@@ -458,8 +486,16 @@ int simheap_find(const void *addr, int *live, size_t *off, size_t *size)
 
 unsigned simheap_live_count(int tag)
 {
+    return live_count[tag & 7];
+}
+
+unsigned simheap_list(int tag, void **ptrs, size_t *sizes, unsigned max)
+{
     unsigned i, n = 0;
-    for (i = 0; i < nblks; i++) if (blks[i].live && blks[i].tag == tag) n++;
+    for (i = 0; i < nblks; i++) if (blks[i].live && blks[i].tag == tag) {
+        if (n < max) { ptrs[n] = blks[i].user; sizes[n] = blks[i].size; }
+        n++;
+    }
     return n;
 }
 
